@@ -184,6 +184,40 @@ fn algebra(report: &mut Report) -> u64 {
             }
         }
     }
+    // Large configurations (as many entries as the curated one, or more): a complete explicit
+    // configuration with ONE curated rule left out and j unknown names added, no nulls; and the
+    // same with a null. The overlay must still supply the missing rule's curated default, keep
+    // every explicit value and stay harmless for the unknown names.
+    let keys: Vec<String> = cur.keys().cloned().collect();
+    for (ki, k) in keys.iter().enumerate() {
+        for unknown in 0..3usize {
+            for flip in [false, true] {
+                n += 1;
+                let mut c = LintGroupConfig::new_curated();
+                // an explicit complete configuration; optionally every value flipped
+                for k2 in &keys {
+                    let v = cur_val(k2).unwrap_or(false);
+                    c.set_rule_enabled(k2, if flip { !v } else { v });
+                }
+                c.unset_rule_enabled(k);
+                for j in 0..unknown {
+                    c.set_rule_enabled(format!("NoSuchRule{j}"), true);
+                }
+                let mut f = c.clone();
+                f.fill_with_curated();
+                let want_missing = cur_val(k).unwrap_or(false);
+                let case = json!({"engine":"E2","object":"LintGroupConfig","config": format!("complete explicit configuration ({}), `{k}` left out, {unknown} unknown rule name(s) added", if flip { "every curated value flipped" } else { "curated values" })});
+                if f.is_rule_enabled(k) != want_missing {
+                    fail("fill_with_curated:large-configuration-misses-the-unmentioned-rule", case.clone(), json!({"key": k, "got": f.is_rule_enabled(k), "want": want_missing}), report);
+                }
+                let other = &keys[(ki + 1) % keys.len()];
+                let want_other = if flip { !cur_val(other).unwrap_or(false) } else { cur_val(other).unwrap_or(false) };
+                if f.is_rule_enabled(other) != want_other {
+                    fail("fill_with_curated:large-configuration-overrides-an-explicit-choice", case, json!({"key": other}), report);
+                }
+            }
+        }
+    }
     n
 }
 
